@@ -440,6 +440,8 @@ class C06(verif.Spec):
         one = (not fixed) and a % 257 == 1
         if one and a == 1 and b >= 257:
             return None     # outside the documented precondition (last_du_size < 257): behaviour unspecified
+        if one and a == 1 and b > len(pre):
+            return None     # malformed op: the "last data unit" would begin before the region handed to encode_stuffing
         keep = len(pre) if not (one and a == 1) else len(pre) - b
         if buf[:keep] != pre[:keep]: return "encode_stuffing changed bytes before the last data unit"
         region = buf[keep:]
